@@ -293,6 +293,27 @@ def _indent_of(text, offset):
     return m.group(0)
 
 
+def _match_arms_n2(text, toks, mo, mc, edits, log, k):
+    """Rule N2 inside the block-bodied arms of a `match` (block toks[mo]..toks[mc]) that is the LAST statement of a `for`
+    body: an arm's block is in tail position, so `if C { continue; } R` => `if !(C) { R }` inside it."""
+    q = mo + 1
+    while q < mc:
+        if toks[q].text in ("(", "["):
+            q = match_close(toks, q) + 1
+            continue
+        if toks[q].text == "{":
+            # struct pattern braces of an arm pattern
+            q = match_close(toks, q) + 1
+            continue
+        if toks[q].text == "=>":
+            if toks[q + 1].text == "{":
+                ac = match_close(toks, q + 1)
+                _nested_n2(text, toks, q + 1, ac, edits, log, k)
+                q = ac + 1
+                continue
+        q += 1
+
+
 def _nested_n2(text, toks, bo, bc, edits, log, k):
     """Rule N2 inside the block toks[bo]..toks[bc] that ends a `for` body (see the caller). Returns the number of rewrites."""
     q = bo + 1
@@ -453,6 +474,20 @@ def normalise_fn(text, log=None, result_name="r_", signature_only=False):
                             while toks[b2].text != "{":
                                 b2 += 1
                             q = match_close(toks, b2) + 1
+                        continue
+                    if x.kind == "ident" and x.text == "match" and at_stmt_start:
+                        dd = 0
+                        b = q + 1
+                        while not (toks[b].text == "{" and dd == 0):
+                            if toks[b].text in ("(", "["):
+                                dd += 1
+                            elif toks[b].text in (")", "]"):
+                                dd -= 1
+                            b += 1
+                        bc = match_close(toks, b)
+                        if bc + 1 == close:
+                            _match_arms_n2(text, toks, b, bc, edits, log, k)
+                        q = bc + 1
                         continue
                     if x.kind == "ident" and x.text == "if" and at_stmt_start and toks[q + 1].text == "let":
                         # N6: `if let P = E && C { S continue; }` followed by the rest R of the body
